@@ -1,4 +1,5 @@
 import LaunchpadModel.Lemmas.Migrate
+import LaunchpadModel.Generated.Constants
 /-!
 # C20 — Migrations never downgrade, never cross contract types, and preserve state
 
@@ -543,6 +544,25 @@ theorem C20_factory_unsupplied_kept (k : FKind) (p : FParams) (m : FMsg) :
     (m.addIds = none → m.rmIds = none → dedupAdj p.ids = p.ids → (applied k p m).ids = p.ids) := by
   cases k <;> simp [applied, updIds] <;> (try intros) <;> simp_all
 
+theorem mem_dedupAdj (x : Nat) (l : List Nat) : x ∈ dedupAdj l ↔ x ∈ l := by
+  induction l with
+  | nil => simp [dedupAdj]
+  | cons a t ih =>
+    cases t with
+    | nil => simp [dedupAdj]
+    | cons b t' =>
+      by_cases h : a = b
+      · subst h; simp only [dedupAdj, if_true]; rw [ih]; simp
+      · simp only [dedupAdj, if_neg h, List.mem_cons] at *; rw [ih]
+
+/-- `Vec::dedup` runs on every update message, so a code-id list with adjacent repeats (possible only straight
+after `instantiate`) is compacted even when no ids are supplied — but the *set* of allowed code ids, which is all
+`AllowedCollectionCodeId` and minter creation look at, is unchanged -/
+theorem C20_factory_ids_set_kept (k : FKind) (p : FParams) (m : FMsg) (h1 : m.addIds = none) (h2 : m.rmIds = none) :
+    ∀ x, x ∈ (applied k p m).ids ↔ x ∈ p.ids := by
+  intro x
+  cases k <;> simp [applied, updIds, h1, h2, mem_dedupAdj]
+
 /-- the keys of the raw storage a successful in-scope migration may change, per class -/
 theorem C20_changed_keys (sp : Spec) (_hk : InScope sp.kind) (now : Nat) (msg : Option FMsg) (s s' : St)
     (h : migrate sp now msg s = .ok s') :
@@ -706,6 +726,56 @@ theorem C20_identity (sp : Spec) (hk : InScope sp.kind) (now : Nat) (msg : Optio
         | metaOnchain => simp [hkind, InScope] at hk
         | nt => simp [hkind, InScope] at hk
         | base721 => simp [hkind, InScope] at hk
+
+/-- the crate versions of the 18 in-scope contracts, as regenerated from /repo's `Cargo.toml`s on every run, are
+representable (`Fits`) — the hypothesis of `C20_version_after` / `C20_monotone` holds for the code that exists —
+and none is below the thresholds the migrations mention, so a freshly instantiated contract never needs a
+one-time initialisation -/
+theorem C20_code_versions_fit :
+    ∀ t ∈ [ Gen.base_factory_CRATE_VERSION_TRIPLE, Gen.vending_factory_CRATE_VERSION_TRIPLE,
+            Gen.open_edition_factory_CRATE_VERSION_TRIPLE, Gen.token_merge_factory_CRATE_VERSION_TRIPLE,
+            Gen.vending_minter_CRATE_VERSION_TRIPLE, Gen.vending_minter_featured_CRATE_VERSION_TRIPLE,
+            Gen.vending_minter_wl_flex_CRATE_VERSION_TRIPLE, Gen.vending_minter_wl_flex_featured_CRATE_VERSION_TRIPLE,
+            Gen.vending_minter_merkle_wl_CRATE_VERSION_TRIPLE, Gen.vending_minter_merkle_wl_featured_CRATE_VERSION_TRIPLE,
+            Gen.open_edition_minter_CRATE_VERSION_TRIPLE, Gen.open_edition_minter_wl_flex_CRATE_VERSION_TRIPLE,
+            Gen.open_edition_minter_merkle_wl_CRATE_VERSION_TRIPLE, Gen.token_merge_minter_CRATE_VERSION_TRIPLE,
+            Gen.sg_splits_CRATE_VERSION_TRIPLE, Gen.whitelist_mtree_CRATE_VERSION_TRIPLE,
+            Gen.tiered_whitelist_merkletree_CRATE_VERSION_TRIPLE, Gen.sg721_updatable_CRATE_VERSION_TRIPLE ],
+      Fits (ofTriple t) ∧ V_3_9_0 ≤ ofTriple t ∧ V_3_1_0 ≤ ofTriple t := by
+  decide
+
+/-! ## 7b. Outside the property's scope (recorded, not claimed): the three other `migrate`s do *not* have these
+guarantees — which is why the scope of C20 excludes them -/
+
+theorem print_3_16_0 : print ⟨3, 16, 0⟩ = [51, 46, 49, 54, 46, 48] := by
+  simp [print, printNum_small, printNum_big, DOT]
+
+/-- `Sg721Contract::migrate` of sg721-base (a method without an entry point) compares version *strings*: with code
+3.16.0 it refuses the upgrade from "3.9.0" and accepts the downgrade from "3.100.0" -/
+theorem outOfScope_base721_string_order (own : NameId) (now : Nat) (s : St) :
+    let sp : Spec := { kind := .base721, own := own, code := ⟨3, 16, 0⟩ }
+    (∃ e, migrateBase721 sp now { s with cw2 := some ⟨own, [51, 46, 57, 46, 48]⟩ } = .error e) ∧
+    (ROYALTY_BACKDATE_NS ≤ now →
+      ∃ s', migrateBase721 sp now { s with cw2 := some ⟨own, [51, 46, 49, 48, 48, 46, 48]⟩ } = .ok s') := by
+  refine ⟨⟨.version, ?_⟩, fun _ => ?_⟩
+  · simp [migrateBase721, getCw2, bind, Except.bind, print_3_16_0, strGe, strLt, throw, throwThe, MonadExceptOf.throw]
+  · simp [migrateBase721, getCw2, bind, Except.bind, print_3_16_0, strGe, strLt, S_3_0_0, S_3_1_0, pure, Except.pure]
+
+/-- sg721-metadata-onchain records `TO_VERSION` ("3.0.0"), not the code's version: migrating a collection recorded
+at 3.5.0 with 3.16.0 code *lowers* the record to 3.0.0 (and any name is accepted) -/
+theorem outOfScope_metaOnchain_lowers (own foreign : NameId) (s : St) :
+    let sp : Spec := { kind := .metaOnchain, own := own, code := ⟨3, 16, 0⟩, earliest := ⟨0, 16, 0⟩, toVer := [51, 46, 48, 46, 48] }
+    ∃ s', migrateMetaOnchain sp { s with cw2 := some ⟨foreign, [51, 46, 53, 46, 48]⟩ } = .ok s' ∧
+      recorded s' = some ⟨3, 0, 0⟩ := by
+  have hp : parse [51, 46, 53, 46, 48] = some ⟨3, 5, 0⟩ := by decide
+  have h1 : ¬ (⟨3, 5, 0⟩ : Version) < ⟨0, 16, 0⟩ := by decide
+  have h2 : ¬ (⟨3, 16, 0⟩ : Version) < ⟨3, 5, 0⟩ := by decide
+  have h3 : ¬ (⟨3, 16, 0⟩ : Version) = ⟨3, 5, 0⟩ := by decide
+  have h4 : ¬ (⟨3, 5, 0⟩ : Version) < V_3_0_0 := by decide
+  intro sp
+  have hq : parse [51, 46, 48, 46, 48] = some ⟨3, 0, 0⟩ := by decide
+  refine ⟨{ s with cw2 := some ⟨own, [51, 46, 48, 46, 48]⟩ }, ?_, by simp [recorded, hq]⟩
+  simp only [sp, migrateMetaOnchain, getCw2, parseVer, hp, bind, Except.bind, h1, h2, h3, h4, if_false, pure, Except.pure]
 
 /-! ## 8. Non-vacuity: concrete states satisfying the hypotheses above -/
 
